@@ -19,6 +19,7 @@ class Schema:
     impls: list = field(default_factory=list)  # [(protocol, struct, name|None, {k: v}, [(signal, {k: v})])]
     top: str = "S"
     extra: str = ""
+    hidden: tuple = ()   # names of structs/enums the generator derives itself (rpc envelopes): in the shape, not in the text
 
     def struct(self, name):
         for n, fs in self.structs:
@@ -32,12 +33,16 @@ class Schema:
     def text(self) -> str:
         out = ['version: "3"', ""]
         for en, vals in self.enums.items():
+            if en in self.hidden:
+                continue
             out.append("enum %s {" % en)
             for n, v in vals:
                 out.append(f"    {n} = {v},")
             out.append("}")
             out.append("")
         for sn, fs in self.structs:
+            if sn in self.hidden:
+                continue
             out.append("struct %s {" % sn)
             for fn, fid, t in fs:
                 out.append(f"    {fn} @{fid}: {type_text(t)},")
